@@ -97,6 +97,9 @@ def main(pid, modname, tier, replay_path=None):
     with ctx.Pool(nproc, initializer=_init, initargs=(modname,)) as pool:
         recs = pool.map(_work, jobs, chunksize=1)
     recs.sort(key=lambda r: r['idx'])
+    if os.environ.get('VERIF_VERBOSE'):
+        for r in recs:
+            print(f"  case {r['idx']}: paths={r['paths']} q={r['queries']} wall={r.get('wall_s')} {json.dumps(r['case'])[:150]}")
 
     tot = dict(paths=0, aborted=0, queries=0, solver_s=0.0, unknown=0, obligations=0, discharged=0, decisions=0)
     errors, failures, labels, reached = [], [], {}, {}
